@@ -123,7 +123,8 @@ PROPS = {
     'C08': dict(
         select=lambda c: c.qual.split('.')[0] in ('reader', 'tex', '__init__') or
         c.qual in ('data.TexExpr.__init__', 'data.TexExpr.append', 'data.TexCmd.__str__', 'data.TexEnv.__str__',
-                   'data.TexArgs.__str__', 'tokens.tokenize', 'category.categorize'),
+                   'data.TexArgs.__str__', 'category.categorize', 'utils.Buffer.forward_until') or
+        c.qual.startswith('tokens.'),
         level='other',
         bounded=['parse.py'],
         lemmas=['L08: read() ensures NW(str(root)) == NW(S) for a clean (no bare-token argument, every environment closed by '
@@ -142,7 +143,8 @@ PROPS = {
         bounded=['parse.py', 'tree.py'],
         select=lambda c: c.qual.split('.')[0] in ('reader', 'tex', '__init__') or
         c.qual in ('data.TexExpr.__init__', 'data.TexExpr.append', 'data.TexCmd.__str__', 'data.TexEnv.__str__',
-                   'data.TexArgs.__str__'),
+                   'data.TexArgs.__str__', 'category.categorize', 'utils.Buffer.forward_until') or
+        c.qual.startswith('tokens.'),
         level='other',
         lemmas=['L01: TexSoup(S) returns and tight(root) ==> str(soup) == S (postcondition `exact` of TexSoup/read)'],
         assumptions=['"parsing succeeds and the tree is tight on every well-formed document with adjacent arguments" quantifies over '
